@@ -386,6 +386,26 @@ def run_shard(mod, spec, ctx):
                                    'symptom': sym, 'features': sorted(D.features(n2) | {'ver=' + ver})},
                                   '%s: %s | value %r | text %r' % (sym, detail2, n2, art2.get('text')),
                                   {'type': 'scalar', 'n': D.enc(n2), 'ver': ver})
+        # date-times that carry a bare UTC offset (no zone), the same offset in January and in July, in one grid and in
+        # both orders: the zone the writer picks must have that offset at *that* instant (or the writer refuses: C17)
+        for off in range(-12 * 3600, 14 * 3600 + 1, 1800):
+            for order in (0, 1):
+                a = ('dt', (2021, 1, 15, 12, 30, 0, 0), off, None)
+                b = ('dt', (2021, 7, 15, 12, 30, 0, 0), off, None)
+                if order:
+                    a, b = b, a
+                g = ('grid', '3.0', (), (('ts', ()), ('v', ())), ((('ts', a), ('v', ('num', 1, None))), (('ts', b), ('v', ('num', 2, None)))))
+                ctx.case('seasons', off, order)
+                sym, detail, art = mod.judge_grid(g)
+                ctx.count('fixed-offset January/July pairs')
+                if sym and sym.startswith('dump-raises:ValueError'):
+                    ctx.count('fixed-offset stamp refused by the writer with ValueError (allowed, C17)')
+                elif sym:
+                    ctx.violation({'part': 'grid', 'format': mod.FMT, 'position': 'cell', 'kind': 'dt', 'symptom': sym,
+                                   'features': ['no-zone', 'same-offset-two-seasons']},
+                                  '%s: %s | two stamps with the bare offset %+d s, in %s order | text %r' % (
+                                      sym, detail, off, 'July, January' if order else 'January, July', (art.get('text') or '')[:300]),
+                                  {'type': 'grid', 'n': D.enc(g)})
         ctx.sample({'scalar': D.enc(cat[20]), 'text': mod.judge_scalar(cat[20], '3.0')[2].get('text')})
     elif part == 'positions':
         cat = D.catalogue(spec['cat'])
